@@ -5,6 +5,7 @@ pub mod c02;
 pub mod c03;
 pub mod c05;
 pub mod c06;
+pub mod c12;
 
 pub fn run(ctx: &mut Ctx) {
     // corpus replay tier first
@@ -15,6 +16,8 @@ pub fn run(ctx: &mut Ctx) {
         "C03" => c03::run_check(ctx),
         "C05" => c05::run_check(ctx),
         "C06" => c06::run_check(ctx),
+        "C12" => c12::run_check12(ctx),
+        "C13" => c12::run_check13(ctx),
         other => {
             eprintln!("unknown property {}", other);
             std::process::exit(2);
@@ -29,6 +32,7 @@ pub fn replay(ctx: &mut Ctx, case: &serde_json::Value) {
         "C03" => c03::replay(ctx, case),
         "C05" => c05::replay(ctx, case),
         "C06" => c06::replay(ctx, case),
+        "C12" | "C13" => c12::replay(ctx, case),
         other => {
             eprintln!("unknown property {}", other);
             std::process::exit(2);
